@@ -153,21 +153,19 @@ class Instance:
 
     def module(self, name, maxread=None):
         body = [
-            'iLead == %d' % self.lead,
-            'iLineEnd == %s' % to_tla(tuple(self.line_end)),
-            'iMsgLen == %s' % to_tla(tuple(len(m[0]) for m in self.msgs)),
-            'iMsgFds == %s' % to_tla(tuple(m[1] for m in self.msgs)),
-            'iHIdx == %s' % to_tla(tuple(tuple(m[2]) for m in self.msgs)),
-            'iCumLen == %s' % to_tla(tuple(itertools.accumulate(len(m[0]) for m in self.msgs))),
-            'iCumFds == %s' % to_tla(tuple(itertools.accumulate(m[1] for m in self.msgs))),
-            'iMaxRead == %d' % (maxread or self.n),
+            'Lead == %d' % self.lead,
+            'LineEnd == %s' % to_tla(tuple(self.line_end)),
+            'MsgLen == %s' % to_tla(tuple(len(m[0]) for m in self.msgs)),
+            'MsgFds == %s' % to_tla(tuple(m[1] for m in self.msgs)),
+            'HIdx == %s' % to_tla(tuple(tuple(m[2]) for m in self.msgs)),
+            'CumLen == %s' % to_tla(tuple(itertools.accumulate(len(m[0]) for m in self.msgs))),
+            'CumFds == %s' % to_tla(tuple(itertools.accumulate(m[1] for m in self.msgs))),
+            'MaxRead == %d' % (maxread or self.n),
         ]
-        return '---- MODULE %s ----\nEXTENDS Framing\n%s\n====\n' % (name, '\n'.join(body))
+        return '---- MODULE FramingData ----\n%s\n====\n' % '\n'.join(body)
 
     def cfg(self, invs, spec=True):
         s = 'SPECIFICATION Spec\n' if spec else ''
-        s += ('CONSTANTS\n Lead <- iLead\n LineEnd <- iLineEnd\n MsgLen <- iMsgLen\n MsgFds <- iMsgFds\n'
-              ' HIdx <- iHIdx\n CumLen <- iCumLen\n CumFds <- iCumFds\n MaxRead <- iMaxRead\n Deviations = {}\n')
         if spec:
             s += 'CHECK_DEADLOCK FALSE\n' + ''.join('INVARIANT %s\n' % i for i in invs)
         return s
@@ -279,9 +277,9 @@ def walk(g, acts):
 
 
 def model_graph(chk, inst, invs, label, maxread=None, timeout=900):
-    name = 'MC_Framing_' + inst.tag
-    extra = {name + '.tla': inst.module(name, maxread), name + '.cfg': inst.cfg(invs)}
-    res, g = tlc.dump_graph(name, name + '.cfg', extra=extra, timeout=timeout)
+    name = 'Framing_' + inst.tag
+    extra = {'FramingData.tla': inst.module(name, maxread), name + '.cfg': inst.cfg(invs)}
+    res, g = tlc.dump_graph('Framing', name + '.cfg', extra=extra, timeout=timeout)
     chk.tlc_stats(res, label)
     if not res.ok:
         chk.violation('model: %s %s violated in %s' % (res.violation + (label,)),
